@@ -30,6 +30,9 @@ structure CrdtOps (σ ω : Type) where
   /-- specification fields for the observation printed by `G` (state BEFORE the call, actor, api args):
   the sequential reading of a local edit (C13) -/
   genSpec : σ → Nat → List String → String := fun _ _ _ => ""
+  /-- hook (mirror of `Crdt::admit` in harness/src/machine.rs): `op` is about to be stored under `name` by
+  `G`/`GA`/`O`, `ops` = the definitions so far; `none` rejects the definition (`nogen` / `badop`) -/
+  admit : List (String × ω) → String → ω → Option ω := fun _ _ op => some op
   /-- the dot an op carries, if any (freshness oracle of C07) -/
   opDot : ω → Option String := fun _ => none
 
@@ -108,7 +111,7 @@ def exec (T : CrdtOps σ ω) (m : MState σ ω) (toks : List String) : MState σ
     | some r, some a => genApply r a name args
     | _, _ => bad
   | "O" :: name :: args =>
-    match T.parseOp args with
+    match (T.parseOp args).bind (T.admit m.ops name) with
     | none => (m, "badop")
     | some op => ({ m with ops := setKey name op m.ops }, "op=" ++ T.showOp op)
   | ["D", rs, name] =>
@@ -353,7 +356,7 @@ where
     | none => (m, "badcmd")
     | some s =>
       if T.genPanics s a args then (m, "panic") else
-      match T.gen s a args with
+      match (T.gen s a args).bind (T.admit m.ops name) with
       | none => (m, "nogen")
       | some op =>
         let fresh := match T.opDot op with
